@@ -369,6 +369,7 @@ func (e *Engine) addEnvIntrinsics() {
 			name := c.s.freshName(fmt.Sprintf("now%d", env.clockN))
 			env.clockN++
 			v := mkVar(name, SInt)
+			c.s.pinReplay(c.w, v)
 			c.s.inputs = append(c.s.inputs, InputRec{Name: name, Kind: "lia", Vars: []string{name}})
 			lo := Value(mkIntC(1 << 30))
 			if env.lastNow != nil {
@@ -841,6 +842,7 @@ func (e *Env) symNow(c *callCtx) *Term {
 		name := c.s.freshName(fmt.Sprintf("now%d", e.clockN))
 		e.clockN++
 		v := mkVar(name, SInt)
+		c.s.pinReplay(c.w, v)
 		c.s.inputs = append(c.s.inputs, InputRec{Name: name, Kind: "lia", Vars: []string{name}})
 		if !c.s.assume(c.w, mkAndB(mkCmp(OILe, mkIntC(1<<30), v), mkCmp(OILt, v, mkIntC(1<<40)))) {
 			c.s.finish("INFEASIBLE", "")
